@@ -102,14 +102,21 @@ class Ctx:
             r = tlc.run(module, cfg, wd, workers=1, timeout=timeout, env=e)
             shutil.rmtree(wd, ignore_errors=True)
             out = {}
+            acc = set()
             for line in r.output.splitlines():
                 line = line.strip()
                 if line.startswith('<<"ACC"'):
                     v = tlc.parse_value(line)
                     out[v[1]] = None
+                    acc.add(v[1])
                 elif line.startswith('<<"REJ"'):
+                    # a trace spec may branch (unlogged choices): accepted if any branch is; otherwise
+                    # report the rejection that got furthest
                     v = tlc.parse_value(line)
-                    out.setdefault(v[1], (v[2], v[3] if len(v) > 3 else '?'))
+                    if v[1] not in out or (out[v[1]] is not None and out[v[1]][0] < v[2]):
+                        out[v[1]] = (v[2], v[3] if len(v) > 3 else '?')
+            for k in acc:
+                out[k] = None
             if not r.ok:
                 raise MachineryError('trace validation run failed (%s): %s\n%s'
                                      % (module, r.violated, r.output[-3000:]))
